@@ -19,8 +19,7 @@ def explore(tier, seed_, years=scenarios.YEARS, per_year=None, replays=True, sna
     for year in years:
         for k in range(per_year):
             rng = random.Random("%d-%d-%d" % (seed_, year, k))
-            p = scenarios.Profile(rng, year=year)
-            p.nc = rng.random() < nc_rate
+            p = scenarios.Profile(rng, year=year, nc=rng.random() < nc_rate)
             request = ["1040"] + (["nc_d-400"] if p.nc else [])
             tid += 1
             tr, res, solver, ans = scenarios.solve_scenario(year, request, p, rng, tid=tid, snap=snap)
